@@ -24,7 +24,7 @@ From Coq Require Import List NArith ZArith Arith Bool Lia ZifyN ZifyNat ZifyBool
 From RT Require Import Model.Bytes Model.Result Model.Varint Model.KeyCodec Model.Records
   Model.RecCodec Model.Block Model.Crc32 Model.Writer Model.Reader Model.SpecDecoder.
 From RT Require Import Proofs.BytesProofs Proofs.CodecProofs Proofs.BlockInitEq Proofs.BlockProofs
-  Proofs.TableProofs Proofs.SeekProofs Proofs.SpecWriterProofs.
+  Proofs.WriterGuard Proofs.TableProofs Proofs.SeekProofs Proofs.SpecWriterProofs.
 Import ListNotations.
 Local Open Scope N_scope.
 
@@ -567,7 +567,7 @@ Section Pad.
   Lemma J_w_add : forall st cur r st', J st cur -> rec_typ r = typ_ref ->
     w_add deflate st r = Ok st' -> exists cur', J st' cur'.
   Proof.
-    intros st cur r st' HJ Hr H. unfold w_add in H.
+    intros st cur r st' HJ Hr H. apply w_add_ok_core in H; unfold w_add_core in H.
     destruct (bytes_ltb (w_last_key st) (rec_key r)); cbn [negb] in H; [|discriminate].
     set (st0 := set_last_key st (rec_key r)) in *.
     assert (J0 : J st0 cur) by (eapply J_frame; [..|exact HJ]; reflexivity).
